@@ -258,6 +258,25 @@ pub fn main(args: &[String]) {
                             }
                         }
                     }
+                    // the alphabet above has ONE representative per block of the partition the REGEX induces; an implementation
+                    // can tell bytes of one block apart (e.g. `char::from(b).is_alphanumeric()` accepts the Latin-1 letters of the
+                    // outsider block).  Bytes next to the ASCII classes and the bytes std's char predicates treat specially are
+                    // therefore substituted / inserted at every position of the first members
+                    const EXTRA: [u8; 26] = [0x00, 0x09, 0x0a, 0x0d, 0x20, 0x2f, 0x3a, 0x40, 0x5b, 0x60, 0x7b, 0x7f, 0x80, 0x85, 0xa0, 0xaa,
+                                             0xb2, 0xb5, 0xba, 0xbc, 0xc0, 0xc3, 0xd7, 0xe9, 0xf7, 0xff];
+                    let firsts: Vec<Vec<u8>> = members.iter().filter(|m| !m.is_empty()).take(60).cloned().collect();
+                    for m in firsts.iter() {
+                        for p in 0..m.len().min(12) {
+                            for c in EXTRA.iter() {
+                                let mut t = m.clone();
+                                t[p] = *c;
+                                check(&t, &mut evals, &mut acc, &mut dis, &mut members);
+                                let mut t = m.clone();
+                                t.insert(p + 1, *c);
+                                check(&t, &mut evals, &mut acc, &mut dis, &mut members);
+                            }
+                        }
+                    }
                     // members grown by random edits (insert / replace / delete / concatenate / repeat to length bounds)
                     let rounds = if thorough { 400_000 } else { 30_000 };
                     for r in 0..rounds {
@@ -267,7 +286,7 @@ pub fn main(args: &[String]) {
                         let mut s = members[rng.below(members.len() as u64) as usize].clone();
                         let ops = 1 + rng.below(3);
                         for _ in 0..ops {
-                            let c = alpha[rng.below(k) as usize];
+                            let c = if rng.below(4) == 0 { EXTRA[rng.below(EXTRA.len() as u64) as usize] } else { alpha[rng.below(k) as usize] };
                             match rng.below(6) {
                                 0 => {
                                     let p = rng.below(s.len() as u64 + 1) as usize;
